@@ -127,7 +127,7 @@ def check(F, R):
         R.table("lp_bound", tab)
         R.ob("NUM-SPELL", "lp_bound", tab == {"+inf": "+infinity", "-inf": "-infinity"}, F.loc(lb), "lp_bound spells infinities as %s" % tab)
     else:
-        R.ob("NUM-SPELL", "lp_bound", False, "", "lp_bound not found")
+        R.ob("NUM-SPELL", "lp_bound", False, "", "lp_bound not found", undecided=True)
     # ---- SIGN-SPLIT ---------------------------------------------------------------------
     c12.sign_split(F, R, prop_filter=lambda g: g.get("file", "").endswith("linear_model.rs") and ("lp_" in g["path"] or "to_lp_format" in g["path"]))
     c12.tolerant_in_printer(F, R, prop_filter=lambda g: g.get("file", "").endswith("linear_model.rs") and ("lp_" in g["path"] or "to_lp_format" in g["path"]))
@@ -135,13 +135,13 @@ def check(F, R):
     for p in (FN, "transformers::linear_model::lp_terms"):
         g = F.fn(p)
         if g is None:
-            R.ob("SIGN-SPLIT", p + ":anchor", False, "", "not found")
+            R.ob("SIGN-SPLIT", p + ":anchor", False, "", "not found", undecided=True)
             continue
         R.fn(p)
         for a in [n for n in walk(g["body"]) if n.get("k") == "MCall" and n["name"] == "abs"]:
             v = sexp(strip(a["recv"])).lstrip("*")
             exact = [n for n in walk(g["body"]) if n.get("k") == "Binary" and n["op"] == "<" and sexp(strip(n["a"])).lstrip("*") == v and lit_of(n["b"]) in ("0.0", "0")]
-            R.ob("SIGN-SPLIT", "%s:%s:exact-sign" % (p, v), bool(exact), F.loc(g, a), "`%s.abs()` is printed; its sign must come from an exact `%s < 0.0` test" % (v, v))
+            R.ob("SIGN-SPLIT", "%s:%s:exact-sign" % (p, v), bool(exact), F.loc(g, a), "`%s.abs()` is printed; its sign must come from an exact `%s < 0.0` test" % (v, v), undecided=True)
     # ---- NAME-NS ------------------------------------------------------------------------
     gen = []
     for n in walk(f["body"]):
